@@ -157,3 +157,162 @@ Proof.
   - repeat constructor; try (vm_compute; first [reflexivity | discriminate]); cbn; intuition discriminate.
   - vm_compute. reflexivity.
 Qed.
+
+(* ======================================================================================
+   The hand-written Conn codec (write.go, sizeof.go, protocol.go requestHeader, the
+   size()/writeTo() methods of the request structs, recordbatch.go), modelled function by
+   function in Model/ConnWriters.v: [creq] is a request the Conn can write (one constructor per
+   API: produce v2/v3/v7, fetch v2/v5/v10, list-offsets v1, api-versions v0, metadata v1/v6,
+   find-coordinator v0, join-group v1/v2, sync-group v0, heartbeat v0, leave-group v0,
+   offset-commit v2, offset-fetch v1, list-groups v1, create-topics v0/v1/v2, delete-topics
+   v0/v1, sasl-handshake v0/v1, sasl-authenticate v0), [creq_size] the size pre-computation,
+   [creq_body] the bytes emitted after the header, [conn_frame] the whole frame.
+   ====================================================================================== *)
+From KV Require Spec.RecordFormat Model.Records Model.ConnWriters
+  Proofs.ConnWritersSize Proofs.ConnWritersDefs Proofs.ConnWritersRefine.
+
+(* ---- (a) the pre-computed size is the number of bytes written: for every request, every
+        field value (produce: any messages — nil/empty/non-empty keys and values, headers, any
+        times, zero time included; an opaque compressed payload).  Always: the 4-byte prefix is
+        the int32 conversion of the number of bytes that follow, and size() agrees with writeTo()
+        modulo 2^32; below 2 GiB ([frame_fits]) the prefix IS that number. ---- *)
+Theorem C04_conn_size_exact : forall corr client r,
+  let rest := enc_i16 (ConnWriters.creq_key r) ++ enc_i16 (ConnWriters.creq_ver r) ++ enc_i32 corr ++
+              (enc_i16 (lenZ client) ++ client) ++ ConnWriters.creq_body r in
+  ConnWriters.conn_frame corr client r = put_bes 4 (wrap32 (lenZ rest)) ++ rest /\
+  wrap32 (ConnWriters.creq_size r) = wrap32 (lenZ (ConnWriters.creq_body r)) /\
+  (ConnWritersSize.frame_fits client r = true ->
+     ConnWriters.conn_frame corr client r = put_bes 4 (lenZ rest) ++ rest /\
+     length (ConnWriters.conn_frame corr client r) = (4 + length rest)%nat /\
+     get_bes 4 (firstn 4 (ConnWriters.conn_frame corr client r)) = lenZ rest /\
+     (match r with
+      | ConnWriters.QProduce _ _ _ _ _ _ _ _ _ => True
+      | _ => ConnWriters.creq_size r = lenZ (ConnWriters.creq_body r)
+      end)).
+Proof. exact ConnWritersSize.conn_size_exact. Qed.
+Print Assumptions C04_conn_size_exact.
+
+(* [frame_fits]: what follows the size prefix is shorter than 2^31 bytes *)
+Theorem C04_conn_frame_fits_def : forall client r,
+  ConnWritersSize.frame_fits client r = (10 + lenZ client + lenZ (ConnWriters.creq_body r) <? ZM31)%Z.
+Proof. reflexivity. Qed.
+Print Assumptions C04_conn_frame_fits_def.
+
+(* the size fields inside a produce request: the record set is its int32 size followed by that
+   many bytes; in a record batch (v3/v7) the batch length counts what follows that field *)
+Theorem C04_conn_produce_set_sizes : forall v cz m0 rest,
+  exists body,
+    ConnWriters.produce_set_write v cz m0 rest = put_bes 4 (wrap32 (lenZ body)) ++ body /\
+    ((lenZ body < ZM31)%Z -> ConnWriters.produce_set_write v cz m0 rest = put_bes 4 (lenZ body) ++ body) /\
+    match v with
+    | ConnWriters.PV2 => True
+    | _ => exists tail, body = put_bes 8 0 ++ put_bes 4 (wrap32 (lenZ body) - 12) ++ tail /\
+                        lenZ tail = (lenZ body - 12)%Z
+    end.
+Proof. exact ConnWritersSize.produce_set_sizes. Qed.
+Print Assumptions C04_conn_produce_set_sizes.
+
+(* every record of an uncompressed batch: its varint length prefix counts the record's bytes *)
+Theorem C04_conn_record_length_exact : forall base i m,
+  exists body, Records.write_record base i m = put_varint (lenZ body) ++ body.
+Proof. exact ConnWritersSize.record_length_exact. Qed.
+Print Assumptions C04_conn_record_length_exact.
+
+(* ---- (b) refinement to the generic schema model: the frame a hand-written writer produces is
+        [write_request] for the grammar the translator regenerates from /repo's protocol package
+        for that (api key, version) — looked up in Gen/Schemas.v — applied to the value built from
+        the same arguments ([creq_value]; a record set is the opaque [VRecords] of that model).
+        [creq_canon_ok]: no pointer to "" as transactional id (the Conn never builds one:
+        emptyToNullable) and no empty string where the protocol package's grammar has a
+        NULLABLE_STRING but the Conn's struct a plain string (metadata topic names, the
+        offset-commit metadata, create-topics config values). ---- *)
+Theorem C04_conn_canonical : forall corr client r,
+  ConnWritersDefs.creq_canon_ok r = true ->
+  exists t, lookup_schema schemas false (ConnWriters.creq_key r) (ConnWriters.creq_ver r) = Some (false, t) /\
+    write_request false t (ConnWriters.creq_key r) (ConnWriters.creq_ver r) corr client (ConnWritersDefs.creq_value r)
+    = Some (ConnWriters.conn_frame corr client r).
+Proof. exact ConnWritersRefine.conn_canonical. Qed.
+Print Assumptions C04_conn_canonical.
+
+(* with empty strings in those positions: the same regenerated grammar with its nullable strings
+   read as non-null strings ([conn_view]) — the Conn sends "" as a string of length 0, a valid
+   NULLABLE_STRING that the generic model (like the protocol package) cannot express *)
+Theorem C04_conn_canonical_nonnull_strings : forall corr client r,
+  ConnWritersDefs.creq_txid_ok r = true ->
+  exists t, lookup_schema schemas false (ConnWriters.creq_key r) (ConnWriters.creq_ver r) = Some (false, t) /\
+    write_request false (ConnWritersDefs.conn_view r t) (ConnWriters.creq_key r) (ConnWriters.creq_ver r)
+                  corr client (ConnWritersDefs.creq_value r)
+    = Some (ConnWriters.conn_frame corr client r).
+Proof. exact ConnWritersRefine.conn_canonical_nonnull_strings. Qed.
+Print Assumptions C04_conn_canonical_nonnull_strings.
+
+Theorem C04_conn_txid_from_config : forall s v cz acks timeout topic partition m0 rest,
+  ConnWritersDefs.creq_txid_ok
+    (ConnWriters.QProduce v cz (ConnWriters.empty_to_nullable s) acks timeout topic partition m0 rest) = true.
+Proof. exact ConnWritersRefine.empty_to_nullable_ok. Qed.
+Print Assumptions C04_conn_txid_from_config.
+
+(* ---- (c) the header: api key, version, correlation id and client id sit where the grammar of
+        C04_request_frame puts them (non-flexible header: the client id a non-null string) ---- *)
+Theorem C04_conn_header_fields : forall corr client r,
+  ConnWriters.conn_frame corr client r =
+  frame (enc_i16 (ConnWriters.creq_key r) ++ enc_i16 (ConnWriters.creq_ver r) ++ enc_i32 corr ++
+         (enc_i16 (lenZ client) ++ client) ++ ConnWriters.creq_body r).
+Proof. exact ConnWritersRefine.conn_header_fields. Qed.
+Print Assumptions C04_conn_header_fields.
+
+(* ---- the version in the header: apiVersionMap.negotiate picks a version the Conn supports
+        that is not above the maximum the broker advertised for the API (taken as 0 when the
+        broker did not list the API), or nothing is sent (-1) ---- *)
+Theorem C04_conn_version_le_advertised : forall adv supported,
+  let v := ConnWriters.conn_negotiate adv supported in
+  let bmax := match adv with Some (_, mx) => mx | None => 0%Z end in
+  (v = (-1)%Z /\ forall s, In s supported -> (bmax < s)%Z) \/ (In v supported /\ (v <= bmax)%Z).
+Proof. exact ConnWritersSize.conn_negotiate_le_advertised. Qed.
+Print Assumptions C04_conn_version_le_advertised.
+
+(* timestamp(t): 0 for the zero time, UnixNano()/1e6 otherwise — the milliseconds Records.ts_ms
+   computes from the nanoseconds handed to the record writers *)
+Theorem C04_conn_timestamp : forall t,
+  ConnWriters.timestamp t = Records.ts_ms (ConnWriters.ns_of t).
+Proof. exact ConnWritersSize.timestamp_ts_ms. Qed.
+Print Assumptions C04_conn_timestamp.
+
+(* ---- non-vacuity: produce v7 with a transactional id, three messages with distinct
+        sub-millisecond / millisecond / zero times, a nil key, an empty value, headers with a nil
+        value; a create-topics v2 request; the nil SaslAuthenticate token (regression of
+        C04-conn-nil-bytes-written-as-null: now 00 00 00 00 like the protocol package) ---- *)
+Definition ex_conn_produce : ConnWriters.creq :=
+  ConnWriters.QProduce ConnWriters.PV7 None (Some [116; 120]%N) (-1) 1500000000 [116]%N 3
+    {| ConnWriters.c_off := 0; ConnWriters.c_time := ConnWriters.TUnix 1600000000123456789;
+       ConnWriters.c_key := None; ConnWriters.c_val := Some [1; 2; 3]%N; ConnWriters.c_hdrs := [] |}
+    [ {| ConnWriters.c_off := 0; ConnWriters.c_time := ConnWriters.TUnix 1600000000123999999;
+         ConnWriters.c_key := Some [7]%N; ConnWriters.c_val := Some []; 
+         ConnWriters.c_hdrs := [([104]%N, None); ([105; 106]%N, Some [9]%N)] |};
+      {| ConnWriters.c_off := 0; ConnWriters.c_time := ConnWriters.TUnix 1600000007000000000;
+         ConnWriters.c_key := Some []; ConnWriters.c_val := None; ConnWriters.c_hdrs := [] |};
+      {| ConnWriters.c_off := 0; ConnWriters.c_time := ConnWriters.TZero;
+         ConnWriters.c_key := None; ConnWriters.c_val := Some [255]%N; ConnWriters.c_hdrs := [] |} ].
+Definition ex_conn_create : ConnWriters.creq :=
+  ConnWriters.QCreateTopics ConnWriters.CV2
+    [ {| ConnWriters.ct_name := [97]%N; ConnWriters.ct_partitions := 3; ConnWriters.ct_replication := (-1);
+         ConnWriters.ct_assignments := [(0%Z, [1; 2]%Z); (1%Z, [])];
+         ConnWriters.ct_configs := [([107]%N, [118]%N)] |} ] 2147483647 true.
+Example C04_conn_example :
+  ConnWritersSize.frame_fits [99]%N ex_conn_produce = true /\
+  ConnWritersDefs.creq_canon_ok ex_conn_produce = true /\
+  ConnWritersDefs.creq_canon_ok ex_conn_create = true /\
+  (exists t, lookup_schema schemas false 0 7 = Some (false, t) /\
+     write_request false t 0 7 77 [99]%N (ConnWritersDefs.creq_value ex_conn_produce)
+     = Some (ConnWriters.conn_frame 77 [99]%N ex_conn_produce)) /\
+  get_bes 4 (firstn 4 (ConnWriters.conn_frame 77 [99]%N ex_conn_produce))
+  = Z.of_nat (length (ConnWriters.conn_frame 77 [99]%N ex_conn_produce) - 4) /\
+  ConnWriters.conn_frame (-1) [99]%N (ConnWriters.QSaslAuthenticate None)
+  = [0; 0; 0; 15; 0; 36; 0; 0; 255; 255; 255; 255; 0; 1; 99; 0; 0; 0; 0]%N /\
+  write_request false (TStruct [TBytes false] []) 36 0 (-1) [99]%N (VStruct [VBytes None] [])
+  = Some (ConnWriters.conn_frame (-1) [99]%N (ConnWriters.QSaslAuthenticate None)).
+Proof.
+  split; [vm_compute; reflexivity|]. split; [vm_compute; reflexivity|]. split; [vm_compute; reflexivity|].
+  split; [exists (ConnWritersDefs.creq_ty true ex_conn_produce); split; vm_compute; reflexivity|].
+  split; vm_compute; [reflexivity|]. split; reflexivity.
+Qed.
